@@ -1,6 +1,6 @@
 #!/bin/bash
 # Runs the quick command of every registered check on the current /repo and summarises (regenerates evidence/*.json).
-cd /verif
+cd "$(dirname "$0")/.."
 for id in $(python3 -c "import json; print(' '.join(c['property_id'] for c in json.load(open('MANIFEST.json'))['checks']))"); do
   s=$(date +%s); out=$(VERIF_SEED=${VERIF_SEED:-0} ./check $id --tier ${1:-quick} 2>&1); rc=$?
   echo "$id rc=$rc $(( $(date +%s) - s ))s  $(echo "$out" | grep -E "^$id tier" | cut -c1-160)"
@@ -9,7 +9,7 @@ done
 python3-vt - <<'PY' 2>&1 | grep -v conda
 import json, jsonschema, glob
 sch = json.load(open('/root/.vp/EVIDENCE.schema.json'))
-for c in json.load(open('/verif/MANIFEST.json'))['checks']:
+for c in json.load(open('MANIFEST.json'))['checks']:
     p = c['evidence_file']
     try:
         e = json.load(open(p)); jsonschema.validate(e, sch)
